@@ -21,5 +21,15 @@ MapNext ==
     \/ /\ Len(files) = 2
        /\ \E how \in {"export", "mapped"} :
              \E sel \in MCLater(Len(files[2].ev)) : Derive(2, how, sel, FALSE)
+\* maps that differ from an increasing one of the same length and end points
+\* (a mapped file, then one more derivation from it: two mapped basins with
+\* different maps of equal length and equal end points meet in one file)
+MCEndpointMaps == {<<1, 3, 2, 4>>, <<1, 2, 2, 4>>, <<1, 3, 2, 4, 5>>}
+EndpointNext ==
+    \/ /\ Len(files) = 1
+       /\ \E sel \in MCEndpointMaps, own \in BOOLEAN : Derive(1, "mapped", sel, own)
+    \/ /\ Len(files) = 2
+       /\ \E how \in {"export", "mapped"}, own \in BOOLEAN :
+             \E sel \in MCLater(Len(files[2].ev)) : Derive(2, how, sel, own)
 Emit == (Len(files) >= 2) => PrintT(<<"H", ToJson(files)>>)
 =============================================================================
